@@ -369,14 +369,61 @@ pub fn generate(case_seed: u64, idx: u64, tier: Tier) -> BCase {
     let bucket = *rng.pick(&[64usize, 96, 160, 256]);
     match idx % 3 {
         0 => {
-            let n = rng.range(4, if tier == Tier::Thorough { 24 } else { 14 });
-            BCase::Seq {
-                seed: case_seed,
-                unique,
-                bucket,
-                ops: (0..n).map(|_| gen_op(&mut rng, true, true)).collect(),
-                queries: (0..8).map(|_| Q::generate(&mut rng, 3)).collect(),
-            }
+            let ops: Vec<BOp> = if rng.chance(1, 3) {
+                // flush-heavy regime: almost every mutation meets fully persisted
+                // (clean) buckets, so a missing dirty mark cannot hide behind a
+                // neighbouring mutation; one hot key grows until its posting migrates
+                let hot = rng.below(8) as u8;
+                let n = rng.range(10, if tier == Tier::Thorough { 60 } else { 36 });
+                let mut ops = Vec::new();
+                // ids the generator believes the hot key holds (refusals on a
+                // unique index make this an over-approximation, which is harmless)
+                let mut hot_ids: BTreeSet<u64> = BTreeSet::new();
+                for _ in 0..n {
+                    if hot_ids.len() >= 2 && rng.chance(1, 7) {
+                        // empty the hot key completely, then persist: whatever an
+                        // earlier flush left behind for it must not come back
+                        for id in std::mem::take(&mut hot_ids) {
+                            ops.push(BOp::Remove { id, key: hot });
+                            if rng.chance(1, 3) {
+                                ops.push(BOp::Flush);
+                            }
+                        }
+                        ops.push(BOp::Flush);
+                        continue;
+                    }
+                    let mut op = gen_op(&mut rng, true, true);
+                    match &mut op {
+                        BOp::Insert { key, .. } | BOp::Remove { key, .. } if rng.chance(2, 3) => *key = hot,
+                        _ => {}
+                    }
+                    if matches!(op, BOp::Compact) && rng.chance(2, 3) {
+                        op = BOp::Insert { id: rng.range(1, 10), key: hot };
+                    }
+                    match &op {
+                        BOp::Insert { id, key } if *key == hot => {
+                            hot_ids.insert(*id);
+                        }
+                        BOp::Remove { id, key } if *key == hot => {
+                            hot_ids.remove(id);
+                        }
+                        BOp::InsertArray { id, keys } | BOp::BatchUpdate { id, new: keys, .. } if keys.contains(&hot) => {
+                            hot_ids.insert(*id);
+                        }
+                        _ => {}
+                    }
+                    let mutation = !matches!(op, BOp::Flush | BOp::Reload);
+                    ops.push(op);
+                    if mutation && rng.chance(3, 4) {
+                        ops.push(BOp::Flush);
+                    }
+                }
+                ops
+            } else {
+                let n = rng.range(4, if tier == Tier::Thorough { 24 } else { 14 });
+                (0..n).map(|_| gen_op(&mut rng, true, true)).collect()
+            };
+            BCase::Seq { seed: case_seed, unique, bucket, ops, queries: (0..8).map(|_| Q::generate(&mut rng, 3)).collect() }
         }
         1 => {
             let n = rng.range(4, 16);
@@ -402,6 +449,40 @@ pub fn generate(case_seed: u64, idx: u64, tier: Tier) -> BCase {
             BCase::Threads { seed: case_seed, unique, bucket, prefix, threads, schedule: rng.below(3) as u8, sched_seed: rng.next_u64(), explicit: None }
         }
     }
+}
+
+/// C04's thread-level half: 2-3 threads contend for ONE value of a unique
+/// index (distinct ids; the holder may be removed and the value re-claimed).
+pub fn generate_unique_contention(case_seed: u64, _idx: u64, _tier: Tier) -> BCase {
+    let mut rng = Rng::stream(case_seed, "btree.unique");
+    let bucket = *rng.pick(&[64usize, 96, 160, 256]);
+    let hot = rng.below(8) as u8;
+    let mut prefix: Vec<BOp> = (0..rng.range(0, 6)).map(|_| BOp::Insert { id: rng.range(1, 10), key: rng.below(8) as u8 }).filter(|o| !matches!(o, BOp::Insert { key, .. } if *key == hot)).collect();
+    let holder = if rng.bool() {
+        let id = rng.range(1, 3);
+        prefix.push(BOp::Insert { id, key: hot });
+        Some(id)
+    } else {
+        None
+    };
+    let nt = rng.range(2, 3);
+    let threads: Vec<Vec<BOp>> = (0..nt)
+        .map(|t| {
+            let my = 10 + t; // each thread claims with its own id
+            (0..rng.range(1, 3))
+                .map(|_| match rng.below(6) {
+                    0 => match holder {
+                        Some(h) => BOp::Remove { id: h, key: hot },
+                        None => BOp::Remove { id: my, key: hot },
+                    },
+                    1 => BOp::Remove { id: my, key: hot },
+                    2 => BOp::Insert { id: my, key: rng.below(8) as u8 },
+                    _ => BOp::Insert { id: my, key: hot },
+                })
+                .collect()
+        })
+        .collect();
+    BCase::Threads { seed: case_seed, unique: true, bucket, prefix, threads, schedule: rng.below(3) as u8, sched_seed: rng.next_u64(), explicit: None }
 }
 
 type Disk = HashMap<String, Vec<u8>>;
@@ -792,6 +873,16 @@ fn run_threads(seed: u64, unique: bool, bucket: usize, prefix: &[BOp], threads: 
         o => return Err(violation!("c10.thread-liveness", "threads did not finish: {o:?}")),
     }
     hist.extend(recs.lock().unwrap().iter().cloned());
+    if unique {
+        rep.probe("unique_insert_refused_under_threads", hist.iter().filter(|e| e.client > 0 && matches!(e.res, Some(TRes::Refused))).count() as u64);
+        rep.probe("unique_insert_accepted_under_threads", hist.iter().filter(|e| e.client > 0 && matches!((&e.op, &e.res), (BOp::Insert { .. }, Some(TRes::Count(1))))).count() as u64);
+        for (k, owners) in contents(&idx) {
+            if owners.len() > 1 {
+                let lines: Vec<String> = hist.iter().map(|e| format!("t{} [{},{}] {:?} -> {:?}", e.client, e.invoke, e.ret.unwrap_or(0), e.op, e.res)).collect();
+                return Err(violation!("c04.unique-violated-under-threads", "unique index: value {k} is held by {owners:?} after the threads finished: {}", lines.join(" | ")));
+            }
+        }
+    }
     let tm = TModel { unique };
     let lr = lin::check(&tm, MM::new(), &hist, true);
     if !lr.ok {
